@@ -60,9 +60,24 @@ class Prop(PropBase):
                 s.lines.append(f'U 0 {port} {w.hex()}')
             s.lines.append('GO 0')
             socks.append(s.text(residual=()))
-        return [('rec', '\n'.join(scn_all) + '\n'), ('rec_sock', '\n'.join(socks) + '\n')]
+        # two recording drivers at once (one feeding thread each, ThreadSanitizer build): each driver's records must be its own
+        # packets, numbered consecutively, whatever the other driver does meanwhile (scenarios and judge of C17's concurrent batch)
+        from props import C17 as C17mod
+        self.c17 = C17mod.Prop(); self.c17.setup(self.L, self.G, self.C)
+        par = [txt for (bn, txt) in self.c17.generate(rng, 'quick') if bn == 'par'][0]
+        return [('rec', '\n'.join(scn_all) + '\n'), ('rec_sock', '\n'.join(socks) + '\n'), ('par', par)]
+
+    harness_variants = ['asan', 'tsan']
+
+    def variant_for(self, bname):
+        return 'tsan' if bname == 'par' else 'asan'
 
     def judge(self, bname, inp, impl_path, model_path, impl_log, violations, broken, stats):
+        if bname == 'par' or (bname == 'replay' and '\nPAR\n' in open(inp).read()):
+            if not hasattr(self, 'c17'):
+                from props import C17 as C17mod
+                self.c17 = C17mod.Prop(); self.c17.setup(self.L, self.G, self.C)
+            return self.c17.judge('par', inp, impl_path, model_path, impl_log, violations, broken, stats)
         super().judge(bname, inp, impl_path, model_path, impl_log, violations, broken, stats)
         # phase 2: replay on the implementation
         rec = dict(CMP.split_scenarios(impl_path))
